@@ -32,10 +32,23 @@ theorem inv_init : InvB {} = true := by decide
 
 theorem inv_bad : InvB badCore = true := by decide
 
-syntax "inv_close" : tactic
+/-- close a leaf: unfold the invariant on both sides, then propositional reasoning; if that is not enough,
+    enumerate client_state × server_state first -/
+syntax "inv_close" ident : tactic
 macro_rules
-  | `(tactic| inv_close) => `(tactic|
+  | `(tactic| inv_close $d) => `(tactic|
       ((try simp [InvB, imp, pausedOK, isErrHookK, isRespHookK, isRespSideK, killedNow, errPeek, is101, mon, fireC,
-          killFinishC, peRetC, applyAction, *] at *) <;> (try grind)))
+          killFinishC, peRetC, applyAction, *] at *) <;>
+       (first | done | grind |
+         (cases hcs : Core.cs $d <;> cases hss : Core.ss $d <;> simp_all <;> grind))))
+
+/-- unfold one call into its decision tree, split it, close every leaf -/
+syntax "inv_tree" ident : tactic
+macro_rules
+  | `(tactic| inv_tree $d) => `(tactic|
+      (simp only [resume, handlePE, peAfter, killedFire, killedSilent, sendResponse, startRequestStream, cbsErrFire,
+        connectFinish, flowDone, onReqHeaders, clientEvent, serverEvent, fin_ite, ite_c, fin_pre, fin_mk, fin_fire,
+        fin_crash, mk_c, crash_c, fire_c, pre_c, ↓reduceIte, Bool.false_eq_true, reduceCtorEq] <;>
+       (repeat' split) <;> inv_close $d))
 
 end MitmVerif.C03
